@@ -112,3 +112,6 @@ def run(ctx):
     from .. import spaces as _spaces
 
     _spaces.localised_inherit(ctx)  # singular parts, sparse forms, potentials and FMM point maps are computed on the localised companion space
+    from .. import state as _state
+
+    _state.process_state(ctx)  # spaces and their localised companions are built per space, not served from a module-level table under an incomplete key
